@@ -38,6 +38,24 @@ Theorem C14_complete_blake3_16 : forall (H : list N -> list N),
   has_member 16 H (hex_encode (root H ms)) m (map hex_encode (proof_at H ms i)) = Ok true.
 Proof. exact has_member_complete_16. Qed.
 
+(* KNOWN FINDING (C14:*-uppercase-root-never-matches).  The full statement
+     "for every root string that instantiate accepts and that denotes the tree's root,
+      every listed entry is accepted with its proof"
+   is REFUTED for roots written with upper-case hex letters: verify_merkle_root accepts
+   them (HexBinary::from_hex is case-insensitive) but query_has_member compares the stored
+   string with lower-case hex::encode.  C14_complete_sha256 / _blake3_16 above are the
+   statement outside that class (root stored exactly as hex_encode renders it, which is
+   what rs_merkle's root_hex() produces). *)
+Theorem C14_complete_any_accepted_root_refuted :
+  exists root : list N,
+    verify_merkle_root 32 root = Ok tt /\
+    forall (H : list N -> list N) m p, has_member 32 H root m p <> Ok true.
+Proof. exact complete_any_accepted_root_refuted. Qed.
+
+Theorem C14_uppercase_root_never_matches : forall L (H : list N -> list N) root m p c,
+  In c root -> 65 <= c <= 70 -> has_member L H root m p <> Ok true.
+Proof. exact uppercase_root_never_matches. Qed.
+
 (* ---------------- soundness ---------------- *)
 (* byte level.  Accepted => listed, or two different inputs with the same digest (found by
    the search over the inputs H was applied to), or one of the two shapes a tree without
@@ -266,6 +284,8 @@ Print Assumptions C14_complete_at.
 Print Assumptions C14_complete.
 Print Assumptions C14_complete_sha256.
 Print Assumptions C14_complete_blake3_16.
+Print Assumptions C14_complete_any_accepted_root_refuted.
+Print Assumptions C14_uppercase_root_never_matches.
 Print Assumptions C14_sound_sha256.
 Print Assumptions C14_sound_blake3_16.
 Print Assumptions C14_sound_wellformed.
